@@ -196,7 +196,10 @@ def state_request(op: str, doc, limit: int, stats: dict, doc_budget: int | None 
     from numbers_parser import cell as K
 
     from checks import fmtglue
-    customs = fmtglue.custom_list(doc._model)
+    try:
+        customs = fmtglue.custom_list(doc._model)
+    except KeyError:  # documents of old Numbers versions have no custom format list
+        customs = {}
     interner = Interner()
     tabs, flags = [], []
     for sheet in doc.sheets:
